@@ -529,6 +529,29 @@ func clRun(cfg *config, toks []string) string {
 	}
 	outPath := filepath.Join(cwd, "out.hlptr")
 	var points [][2]float64
+	// gopro laptimes takes any number of files: half of the cases hand the readings over in one
+	// file, the others in three — the readings, a file recorded fifty kilometres away, and the
+	// readings again (a second session on the same track); every reading of every file counts
+	var allPoints [][2]float64
+	multiFile := caseHash(strings.Join(toks, " "))&1 == 1
+	writeLaptimesInputs := func() {
+		os.WriteFile(filepath.Join(cwd, "in.mp4"), clGPSFile(points), 0o644)
+		allPoints = append([][2]float64(nil), points...)
+		if !multiFile {
+			return
+		}
+		var far [][2]float64
+		for _, pt := range points {
+			d := 0.5
+			if pt[0] > 0 {
+				d = -0.5
+			}
+			far = append(far, [2]float64{pt[0] + d, pt[1]})
+		}
+		os.WriteFile(filepath.Join(cwd, "far.mp4"), clGPSFile(far), 0o644)
+		os.WriteFile(filepath.Join(cwd, "again.mp4"), clGPSFile(points), 0o644)
+		allPoints = append(append(allPoints, far...), points...)
+	}
 	switch cmdName {
 	case "convert":
 		inArg, outArg := "-", "-"
@@ -552,8 +575,11 @@ func clRun(cfg *config, toks []string) string {
 				points = append(points, [2]float64{la, lo})
 			}
 		}
-		os.WriteFile(filepath.Join(cwd, "in.mp4"), clGPSFile(points), 0o644)
+		writeLaptimesInputs()
 		args = append(args, "in.mp4")
+		if multiFile {
+			args = append(args, "far.mp4", "again.mp4")
+		}
 	case "gopro.render":
 		args = append(args, "absent.mp4", "out.png")
 	case "gopro.convert":
@@ -625,7 +651,7 @@ func clRun(cfg *config, toks []string) string {
 						points = append(points, [2]float64{qla, qlo})
 					}
 				}
-				os.WriteFile(filepath.Join(cwd, "in.mp4"), clGPSFile(points), 0o644)
+				writeLaptimesInputs()
 				if !run() {
 					return "hang"
 				}
@@ -739,7 +765,7 @@ func clRun(cfg *config, toks []string) string {
 			pLo := geo.NewProcessor(geo.Tolerance(math.Max(0, tol*0.97-0.02)))
 			pHi := geo.NewProcessor(geo.Tolerance(tol*1.03 + 0.02))
 			want, wantHi = 0, 0
-			for _, pt := range points {
+			for _, pt := range allPoints {
 				la, lo := math.Round(pt[0]*1e7)/1e7, math.Round(pt[1]*1e7)/1e7
 				if tol > 0 && pLo.OnLine(la, lo, lat1, lon1, lat2, lon2) {
 					want++
@@ -802,9 +828,10 @@ func clValue(r *rng, cmd string, o clOpt, src int) string {
 	case "s":
 		switch o.path {
 		case "decoder":
-			return hexStr(pick(r, []string{"trackaddict", "trackaddict", "trackaddict", "nope", ""}))
+			// (the name of a format that exists, but not in this role, is as unknown as any other)
+			return hexStr(pick(r, []string{"trackaddict", "trackaddict", "trackaddict", "trackaddict", "nope", "", "laptimer"}))
 		case "encoder":
-			return hexStr(pick(r, []string{"laptimer", "laptimer", "laptimer", "gpx", ""}))
+			return hexStr(pick(r, []string{"laptimer", "laptimer", "laptimer", "laptimer", "gpx", "", "trackaddict"}))
 		case "sourcedir", "outputdir":
 			return hexStr(pick(r, []string{"src", ".", "other", ""}))
 		case "binary":
@@ -1031,6 +1058,9 @@ func corpusCL(cfg *config) []string {
 		"cl cmd=convert which=none F=start-date:d:" + hexStr("2022-06-10") + ",vehicle:s:" + hexStr(" Cup Car ") + " C=~ H=~ io=so tz=Pacific/Auckland in=" + hexStr(cvDecoy),
 		// a config file found by the search that sets nothing: the options keep their built-in defaults
 		"cl cmd=convert which=cwd F=decoder:s:" + hexStr("trackaddict") + ",encoder:s:" + hexStr("laptimer") + " C=~ H=~ io=fo in=" + hexStr(cvDecoy),
+		// names of formats that exist, in the role they cannot play
+		"cl cmd=convert which=cwd F=decoder:s:" + hexStr("laptimer") + ",encoder:s:" + hexStr("laptimer") + " C=~ H=~ io=fo in=" + hexStr(cvDecoy),
+		"cl cmd=convert which=cwd F=decoder:s:" + hexStr("trackaddict") + ",encoder:s:" + hexStr("trackaddict") + " C=~ H=~ io=ff in=" + hexStr(cvDecoy),
 		"cl cmd=convert which=home F=~ C=~ H=~ io=fo in=" + hexStr(cvDecoy),
 		"cl cmd=gopro.laptimes which=cwd F=~ C=root.verbose:i:" + hexStr("0") + " H=~ io=ff in=" + hexStr("0.0000000,0.0000000;0.0000100,0.0000000"),
 		// the built-in start line (0, 0) with a reading exactly on it
